@@ -135,6 +135,16 @@ impl Execution {
     pub(crate) fn schedule(&mut self) -> bool {
         use crate::rt::path::Thread;
 
+        // The thread is unwinding from a panic: the execution has failed and
+        // nothing more is explored. Its destructors may still reach scheduling
+        // points; the thread is never descheduled in the middle of unwinding
+        // (switching would leave the panic of this OS thread pending while
+        // another loom thread runs, and a thread that panicked at a blocking
+        // operation could never be resumed).
+        if std::thread::panicking() {
+            return false;
+        }
+
         // Implementation of the DPOR algorithm.
 
         let curr_thread = self.threads.active_id();
